@@ -14,12 +14,22 @@ for f in $FILES; do
   b=$(basename $(dirname $f))_$(basename $f .go)
   /verif/tools_keys.sh $f | tr ',' '\n' | grep -v "^$" | sort -u > $OUT/$b.keys
   fi
+  if [ -s /verif/spec/status_exclude.txt ]; then grep -vxFf <(grep -v "^#" /verif/spec/status_exclude.txt) $OUT/$b.keys > $OUT/$b.keys.f; mv $OUT/$b.keys.f $OUT/$b.keys; fi
   split -l ${STATUS_BATCH:-25} -d $OUT/$b.keys $OUT/$b.part.
   for part in $OUT/$b.part.*; do
     keys=$(tr '\n' ',' < $part | sed 's/,$//')
     n=$(basename $part)
     [ -s $OUT/$n.json ] && [ -z "$STATUS_FORCE" ] && continue
-    /verif/bin/rvc verify -x -f "$keys" -t $T -json $OUT/$n.json > $OUT/$n.log 2>&1
+    timeout ${STATUS_WALL:-1800} /verif/bin/rvc verify -x -f "$keys" -t $T -json $OUT/$n.json > $OUT/$n.log 2>&1
+    if [ $? = 124 ]; then
+      # a key of this batch runs away (loops without invariants inlined and unrolled): key by key, with a wall-clock limit each
+      rm -f $OUT/$n.json; k=0
+      for key in $(cat $part); do
+        k=$((k+1))
+        timeout ${STATUS_WALL1:-420} /verif/bin/rvc verify -x -f "$key" -t $T -json $OUT/$n.k$k.json > $OUT/$n.k$k.log 2>&1 || { [ $? = 124 ] && { rm -f $OUT/$n.k$k.json; echo "$key" >> $OUT/runaway.txt; echo "  runaway: $key"; }; }
+      done
+      cat $OUT/$n.k*.log > $OUT/$n.log 2>/dev/null
+    fi
     echo "$(date +%T) $n: $(grep -c '^OK' $OUT/$n.log) ok, $(grep -c '^FAIL' $OUT/$n.log) fail"
   done
 done
